@@ -63,6 +63,11 @@ class SMUserList(UserList, ABC):
       ``count``, ``remove`` and ``sort``.
     """
 
+    # tell NumPy not to treat instances as array-likes in binary operations, so
+    # that <ndarray or NumPy scalar> op <instance> defers to the reflected
+    # operator of the instance
+    __array_ufunc__ = None
+
     @abstractproperty
     def shape(self):
         pass
